@@ -9,8 +9,12 @@ import asyncstdlib as A
 
 from ..loop import CTX, Driver, Suspend, rr_strategy
 from ..sched import explore
-from ..probes import PLANNED, PLANNED_NAMES, Planned
+from ..probes import PLANNED, PLANNED_NAMES, Planned, PlannedAbort, PLANNED_ANY
 from ..tools import Opaque
+
+# (what user code fails with: also a BaseException that is no Exception - a failure like any other)
+PLANNED = dict(PLANNED, Abort=PlannedAbort)
+PLANNED_NAMES = list(PLANNED_NAMES) + ["Abort", "Abort"]
 
 OPAQUE = Opaque("result")  # a result that refuses to be inspected (no truth value, equality, hash)
 
@@ -31,6 +35,7 @@ RULE += (' Also: planned failures of every standard exception type; None/0/() re
 RULE += (' Also: opaque results.')
 RULE += (' Also: call objects created first and started later (a scheduling point between creation and start).')
 RULE += (' Also: cache_discard operations in the quiescent epilogue.')
+RULE += (' Also: calls spelled with a keyword (f(2) and f(2, tag=1) are different keys); functions failing with a BaseException that is no Exception.')
 ASSUMPTIONS = ["cache contents during concurrency are not pinned, only constrained existentially at quiescence",
                "the OrderedDict LRU model is the one cross-validated against functools.lru_cache by C10"]
 EXHAUSTIVE_SUBSPACES = 'every scenario counted in scenarios_explored_exhaustively had ALL its interleavings executed'
@@ -64,6 +69,8 @@ def cases(tier, seed, shard, nshards):
                "cancel_task": rng.randrange(nt) if rng.random() < 0.4 else None,
                "runs": DFS_LIMIT[tier] if mode == "dfs" else RANDOM_RUNS[tier], "seed": rng.randrange(1 << 30),
                "exc": rng.choice(PLANNED_NAMES), "falsy_value": rng.choice([None, None, "none", "none", "zero", "empty", "opaque"]),
+               # calls spelled with a keyword: key 2j+1 is the call f(2j, tag=1) - same positional argument as key 2j
+               "kwform": rng.random() < 0.3,
                "epilogue": [(["discard", rng.randrange(nkeys + 1)] if rng.random() < 0.2 else rng.randrange(nkeys + 1))
                             for _ in range(rng.randint(3, 7))],
                "precreate": rng.random() < 0.3}
@@ -97,7 +104,25 @@ def execute(case, choose, cancel_at=None):
             return {"none": None, "zero": 0, "empty": (), "opaque": OPAQUE}[case["falsy_value"]]
         return ("v", key, rid)
 
-    async def wrapped(key):
+    kwform = bool(case.get("kwform"))
+
+    def pattern(key):
+        """How the logical key is spelled as a call: positionally - or, for odd keys in the keyword form, as the
+        positional argument of its even neighbour plus one keyword (``f(2)`` and ``f(2, tag=1)`` are different calls)."""
+        if kwform and isinstance(key, int):
+            return ((key - key % 2,), {"tag": 1} if key % 2 else {})
+        return ((key,), {})
+
+    def call_of(key):
+        args, kw = pattern(key)
+        return cached(*args, **kw)
+
+    def discard(key):
+        args, kw = pattern(key)
+        return cached.cache_discard(*args, **kw)
+
+    async def wrapped(key, tag=0):
+        key = key + tag if kwform and isinstance(key, int) else key
         state["runs"] += 1
         rid = state["runs"]
         state["inv_since_clear"] += 1
@@ -130,7 +155,7 @@ def execute(case, choose, cancel_at=None):
                     # the call OBJECT is created first and started later (ensure_future / gather create their coroutine
                     # objects before any of them runs): whether it hits or misses is decided when it runs - whatever
                     # was cleared, discarded, evicted or stored in between
-                    call = cached(op[1])
+                    call = call_of(op[1])
                     try:
                         await Suspend(("created", t), 1)
                     except BaseException:
@@ -139,8 +164,8 @@ def execute(case, choose, cancel_at=None):
                 state["started"] += 1
                 state["started_since_clear"] += 1
                 try:
-                    value = await (call if call is not None else cached(op[1]))
-                except Planned:
+                    value = await (call if call is not None else call_of(op[1]))
+                except PLANNED_ANY:
                     continue
                 received.append((t, op[1], value))
             elif op[0] == "clear":
@@ -151,7 +176,7 @@ def execute(case, choose, cancel_at=None):
                 state["started_since_clear"] = 0
                 state["shrink_ok"] = True
             else:
-                cached.cache_discard(op[1])
+                discard(op[1])
                 state["shrink_ok"] = True
 
     def monitor(driver, task):
@@ -212,10 +237,10 @@ def execute(case, choose, cancel_at=None):
             for key in case["epilogue"]:
                 if isinstance(key, list):
                     # ["discard", k]: an entry discarded at quiescence is gone - whatever happened before
-                    cached.cache_discard(key[1])
+                    discard(key[1])
                     observed.append((None, tuple(cached.cache_info())))
                     continue
-                v = await cached(key)
+                v = await call_of(key)
                 observed.append((v, tuple(cached.cache_info())))
 
         base_runs = state["runs"]
